@@ -7,6 +7,7 @@ import (
 	"compress/lzw"
 	"compress/zlib"
 	"fmt"
+	"golang.org/x/image/ccitt"
 	"io"
 	"strings"
 	"testing"
@@ -74,10 +75,11 @@ func c06Decode(f Filter, v Version, enc []byte, chunk int) ([]byte, error) {
 func c06Filters() []Filter {
 	fs := []Filter{FilterASCII85{}, FilterASCIIHex{}, FilterRunLength{}, FilterFlate{}, FilterLZW{}, FilterLZW{OffByOne: true}, FilterCompress{}}
 	for _, p := range []FlatePredictor{FlatePredictorTIFF, FlatePredictorPNGNone, FlatePredictorPNGSub, FlatePredictorPNGUp, FlatePredictorPNGAverage, FlatePredictorPNGPaeth, FlatePredictorPNGOptimum} {
-		for _, geo := range [][3]int{{1, 8, 6}, {3, 8, 4}, {1, 1, 16}, {1, 4, 6}, {2, 16, 3}, {4, 2, 5}} {
+		for _, geo := range [][3]int{{1, 8, 6}, {3, 8, 4}, {1, 1, 16}, {1, 4, 6}, {2, 16, 3}, {4, 2, 5}, {3, 4, 5}, {5, 2, 3}, {9, 1, 4}} {
 			fs = append(fs, FilterFlate{Predictor: p, Colors: geo[0], BitsPerComponent: geo[1], Columns: geo[2]})
 			if p == FlatePredictorPNGUp || p == FlatePredictorTIFF {
 				fs = append(fs, FilterLZW{Predictor: p, Colors: geo[0], BitsPerComponent: geo[1], Columns: geo[2], OffByOne: true})
+				fs = append(fs, FilterLZW{Predictor: p, Colors: geo[0], BitsPerComponent: geo[1], Columns: geo[2]})
 			}
 		}
 	}
@@ -156,6 +158,31 @@ func TestB2C06RoundTrip(t *testing.T) {
 						t.Errorf("B2-FAIL roundtrip %T%+v v=%v len=%d chunk=%d: got %d bytes, err=%v", f, f, v, len(data), chunk, len(dec), err)
 					}
 				}
+			}
+		}
+	}
+	// LZW: every length up to 2300 of incompressible data, so that the last code falls on
+	// every position relative to the 9/10/11/12-bit width switches
+	noise := make([]byte, 2300)
+	x := uint32(2463534242)
+	for i := range noise {
+		x ^= x << 13
+		x ^= x >> 17
+		x ^= x << 5
+		noise[i] = byte(x >> 11)
+	}
+	for _, f := range []Filter{FilterLZW{}, FilterLZW{OffByOne: true}} {
+		step := 1
+		for n := 0; n <= len(noise); n += step {
+			cases++
+			enc, err := c06Encode(f, V1_7, noise[:n], 0)
+			if err != nil {
+				t.Errorf("B2-FAIL encode %T%+v len=%d: %v", f, f, n, err)
+				continue
+			}
+			dec, err := c06Decode(f, V1_7, enc, 0)
+			if err != nil || !bytes.Equal(dec, noise[:n]) {
+				t.Errorf("B2-FAIL roundtrip %T%+v noise len=%d: got %d bytes, err=%v", f, f, n, len(dec), err)
 			}
 		}
 	}
@@ -433,12 +460,13 @@ func TestB2C07Independent(t *testing.T) {
 			return io.ReadAll(r)
 		})
 		for _, p := range []FlatePredictor{FlatePredictorPNGNone, FlatePredictorPNGSub, FlatePredictorPNGUp, FlatePredictorPNGAverage, FlatePredictorPNGPaeth, FlatePredictorPNGOptimum} {
-			for _, geo := range [][3]int{{1, 8, 5}, {3, 8, 2}, {2, 16, 1}} {
+			for _, geo := range [][3]int{{1, 8, 5}, {3, 8, 2}, {2, 16, 1}, {1, 4, 4}, {3, 4, 4}, {5, 2, 4}, {9, 1, 8}, {1, 1, 8}} {
 				row := (geo[0]*geo[1]*geo[2] + 7) / 8
 				if len(data)%row != 0 {
 					continue
 				}
-				bpp := max(1, geo[0]*geo[1]/8)
+				// PNG: "bpp is the number of bytes per complete pixel, rounding up to one"
+				bpp := (geo[0]*geo[1] + 7) / 8
 				check(fmt.Sprintf("png%d-%v", p, geo), FilterFlate{Predictor: p, Colors: geo[0], BitsPerComponent: geo[1], Columns: geo[2]}, func(b []byte) ([]byte, error) {
 					r, err := zlib.NewReader(bytes.NewReader(b))
 					if err != nil {
@@ -536,6 +564,163 @@ func TestB2C07Independent(t *testing.T) {
 		zw.Close()
 		back("flate", FilterFlate{}, zb.Bytes())
 	}
+	// LZW at every length of incompressible data (the final code at every position
+	// relative to the code width switches), both directions
+	noise := make([]byte, 2300)
+	x := uint32(88172645)
+	for i := range noise {
+		x ^= x << 13
+		x ^= x >> 17
+		x ^= x << 5
+		noise[i] = byte(x >> 9)
+	}
+	for n := 0; n <= len(noise); n++ {
+		for early, f := range []Filter{FilterLZW{}, FilterLZW{OffByOne: true}} {
+			cases++
+			enc, err := c06Encode(f, v, noise[:n], 0)
+			if err != nil {
+				t.Errorf("B2-FAIL encode-lzw-early%d noise len=%d: %v", early, n, err)
+				continue
+			}
+			got, err := refLZWDecode(enc, early)
+			if err != nil || !bytes.Equal(got, noise[:n]) {
+				t.Errorf("B2-FAIL independent-decoder-lzw-early%d noise len=%d: %d bytes, err=%v", early, n, len(got), err)
+			}
+		}
+		if n%3 == 0 {
+			cases++
+			var lz bytes.Buffer
+			lw := lzw.NewWriter(&lz, lzw.MSB, 8)
+			lw.Write(noise[:n])
+			lw.Close()
+			got, err := c06Decode(FilterLZW{}, v, lz.Bytes(), 0)
+			if err != nil || !bytes.Equal(got, noise[:n]) {
+				t.Errorf("B2-FAIL independent-encoder-lzw-early0 noise len=%d: %d bytes, err=%v", n, len(got), err)
+			}
+		}
+	}
+	t.Logf("B2-CASES %d", cases)
+}
+
+// ---- CCITTFax (C06 round trip, C07 against golang.org/x/image/ccitt) ----
+
+// c06CCITTRow builds one scan line from run lengths, starting with white (1 = white).
+func c06CCITTRow(width int, runs ...int) []byte {
+	row := make([]byte, (width+7)/8)
+	x, white := 0, true
+	for _, n := range runs {
+		for i := 0; i < n && x < width; i++ {
+			if white {
+				row[x/8] |= 0x80 >> (x % 8)
+			}
+			x++
+		}
+		white = !white
+	}
+	return row
+}
+
+type c06CCITTImage struct {
+	name  string
+	width int
+	rows  [][]int
+}
+
+func c06CCITTImages() []c06CCITTImage {
+	return []c06CCITTImage{
+		{"tiny", 8, [][]int{{8}, {0, 8}, {3, 2, 3}, {1, 1, 1, 1, 1, 1, 1, 1}}},
+		{"w24", 24, [][]int{{24}, {24}, {0, 24}, {5, 7, 12}}},
+		{"a4", 1728, [][]int{{1728}, {1728}, {100, 28, 1600}, {0, 1728}, {0, 1728}, {864, 864}, {63, 1, 64, 1600}}},
+		{"wide", 6000, [][]int{{2559, 1, 2560, 880}, {2600, 800, 2600}, {3000, 3000}, {5183, 817}, {5184, 816}, {6000}}},
+		{"a3-600dpi", 7016, [][]int{{100, 50, 6866}, {7016}, {7016}, {16, 7000}}},
+	}
+}
+
+func TestB2C06CCITT(t *testing.T) {
+	cases := 0
+	for _, img := range c06CCITTImages() {
+		var data []byte
+		for _, runs := range img.rows {
+			data = append(data, c06CCITTRow(img.width, runs...)...)
+		}
+		for _, f := range []FilterCCITTFax{
+			{K: 0, Columns: img.width}, {K: 0, Columns: img.width, EndOfLine: true}, {K: -1, Columns: img.width},
+			{K: 0, Columns: img.width, BlackIs1: true}, {K: -1, Columns: img.width, Rows: len(img.rows)}, {K: 4, Columns: img.width, EndOfLine: true},
+		} {
+			cases++
+			desc := fmt.Sprintf("%s %+v", img.name, f)
+			var enc, dec []byte
+			var err error
+			func() {
+				defer func() {
+					if r := recover(); r != nil {
+						err = fmt.Errorf("panic: %v", r)
+					}
+				}()
+				enc, err = c06Encode(f, V1_7, data, 0)
+			}()
+			if err != nil {
+				t.Errorf("B2-FAIL ccitt-encode %s: %v", desc, err)
+				continue
+			}
+			name, parms, err := f.Info(V1_7)
+			if err != nil {
+				t.Errorf("B2-FAIL ccitt-info %s: %v", desc, err)
+				continue
+			}
+			f2, err := MakeFilter(name, parms)
+			if err != nil {
+				t.Errorf("B2-FAIL ccitt-makefilter %s: %v", desc, err)
+				continue
+			}
+			dec, err = c06Decode(f2, V1_7, enc, 0)
+			if err != nil || !bytes.Equal(dec, data) {
+				key := "ccitt-roundtrip"
+				if f.K == 0 {
+					key = "ccitt-roundtrip-g3-1d"
+				}
+				t.Errorf("B2-FAIL %s %s: %d bytes, want %d, err=%v", key, desc, len(dec), len(data), err)
+			}
+		}
+	}
+	t.Logf("B2-CASES %d", cases)
+}
+
+func TestB2C07CCITT(t *testing.T) {
+	cases := 0
+	for _, img := range c06CCITTImages() {
+		var data []byte
+		for _, runs := range img.rows {
+			data = append(data, c06CCITTRow(img.width, runs...)...)
+		}
+		for _, k := range []int{0, -1} {
+			cases++
+			f := FilterCCITTFax{K: k, Columns: img.width, EndOfLine: k == 0}
+			sf := ccitt.Group4
+			if k == 0 {
+				sf = ccitt.Group3 // x/image expects EOL codes in Group 3 data
+			}
+			var enc []byte
+			var err error
+			func() {
+				defer func() {
+					if r := recover(); r != nil {
+						err = fmt.Errorf("panic: %v", r)
+					}
+				}()
+				enc, err = c06Encode(f, V1_7, data, 0)
+			}()
+			if err != nil {
+				t.Errorf("B2-FAIL encode-ccitt %s K=%d: %v", img.name, k, err)
+				continue
+			}
+			r := ccitt.NewReader(bytes.NewReader(enc), ccitt.MSB, sf, img.width, len(img.rows), nil)
+			got, err := io.ReadAll(r)
+			if err != nil || !bytes.Equal(got, data) {
+				t.Errorf("B2-FAIL independent-decoder-ccitt %s K=%d: %d bytes, want %d, err=%v", img.name, k, len(got), len(data), err)
+			}
+		}
+	}
 	t.Logf("B2-CASES %d", cases)
 }
 
@@ -543,7 +728,7 @@ func TestB2C07Independent(t *testing.T) {
 
 type c08Getter struct{ meta MetaInfo }
 
-func (g *c08Getter) GetMeta() *MetaInfo                        { return &g.meta }
+func (g *c08Getter) GetMeta() *MetaInfo                  { return &g.meta }
 func (g *c08Getter) Get(Reference, bool) (Native, error) { return nil, nil }
 
 func TestB2C08Hostile(t *testing.T) {
